@@ -241,7 +241,7 @@ fn make_case_slow(progs: &[Vec<A>], spawn: SpawnCfg, attach: Attach, start_err: 
         desc,
         exec: ExecCfg { horizon: 3 + slow_start as u64 * 3, ..ExecCfg::default() },
         bound: None,
-        scene: Box::new(ProgScene { spawn, attach, roles: vec![role], clients, extra: X { stream, start_err }, oracle }),
+        scene: Box::new(ProgScene { variant: crate::progscene::current_variant(), spawn, attach, roles: vec![role], clients, extra: X { stream, start_err }, oracle }),
     }
 }
 
